@@ -1568,11 +1568,29 @@ def subprocess_exit_check(ctx, res):
                  'bad': ("Mod('m1', 'frappy.modules.Readable', 'x', value=Param(default=1), zz=1)\n"
                          "Mod('m2', 'frappy.modules.Readable', 'y', value=Param(default='abc'))\n"
                          "Mod('m3', 'frappy.modules.Readable', 'z', value=Param(default=3))\n", ['m1', 'm2'])}
+        # modules with an OPTIONAL attached module which their own code does not use while initialising
+        cases['goodatt'] = ("Mod('m1', 'frappy_verifc10srv.Out', 'x')\nMod('m2', 'frappy_verifc10srv.Reg', 'y', out='m1')\n"
+                            "Mod('m3', 'frappy_verifc10srv.Reg', 'z')\n", [])
+        cases['badatt'] = ("Mod('m1', 'frappy_verifc10srv.Out', 'x')\nMod('m2', 'frappy_verifc10srv.Reg', 'y', out='m1')\n"
+                           "Mod('m3', 'frappy_verifc10srv.Reg', 'z', out='m1x')\nMod('m4', 'frappy_verifc10srv.Reg', 'z', out='m2')\n"
+                           "Mod('m5', 'frappy_verifc10srv.Reg', 'z', zz=1)\n", ['m3', 'm4', 'm5'])
+        strdt = {'t': 'string', 'minchars': 0, 'maxchars': 1 << 64, 'utf8': False}
+        srvcls = {'Out': {'modprops': [], 'params': [], 'other': [], 'kinds': ['Module', 'KA'], 'attached': []},
+                  'Reg': {'modprops': [{'name': 'out', 'dt': strdt, 'mandatory': False, 'classValue': None}], 'params': [], 'other': [],
+                          'kinds': ['Module'], 'attached': [['out', 'KA']]}}
         code = ("import sys\nfrom pathlib import Path\nfrom vlib.node import patch_version; patch_version()\n"
+                "from frappy.modules import Module, Attached\n"
+                "class KA: pass\n"
+                "class Out(KA, Module): pass\n"
+                "class Reg(Module):\n    out = Attached(KA, mandatory=False)\n"
+                "import types\nsys.modules['frappy_verifc10srv'] = gm = types.ModuleType('frappy_verifc10srv')\n"
+                "gm.Out, gm.Reg = Out, Reg\n"
                 "from frappy.lib import generalConfig; generalConfig.testinit(piddir=Path(sys.argv[1]).parent)\n"
                 "from frappy.server import Server\nimport mlzlog\n"
                 "srv = Server('x', mlzlog.MLZLogger('x'), cfgfiles=[sys.argv[1]], interface='tcp://5000', testonly=True)\n"
                 "srv._processCfg()\nprint('REGISTERED', ' '.join(srv.secnode.modules))\n"
+                "for n, m in srv.secnode.modules.items():\n"
+                "    if isinstance(m, Reg): print('ATTACHED', n, m.out.name if m.out else '-')\n"
                 "srv._processCfg()\nprint('REGISTERED2', ' '.join(srv.secnode.modules))\n")
         for tag, (mods, _) in cases.items():
             p = os.path.join(base, f'{tag}_cfg.py')
@@ -1591,11 +1609,20 @@ def subprocess_exit_check(ctx, res):
                 elif line.startswith('REGISTERED'):
                     registered = line.split()[1:]
             reported = sorted(set(re.findall(r'error creating (?:module )?(\w+)', err)))
-            if pr.returncode != 0 and not reported:
+            init_reported = sorted(set(re.findall(r'error initializing (\w+)', err)))
+            if pr.returncode != 0 and not reported and not init_reported:
                 raise RuntimeError(f'Server subprocess failed for another reason: {err[-400:]}')
             if pr.returncode != 0:
                 registered = [m for m in configured if m not in reported]     # not observable after exit: not contradicted
-            obs = {'configured': configured, 'registered': registered, 'reported': reported, 'starts': pr.returncode == 0}
+            attached = [[l.split()[1], 'out', None if l.split()[2] == '-' else l.split()[2]]
+                        for l in out.splitlines() if l.startswith('ATTACHED')]
+            obs = {'configured': configured, 'registered': registered, 'reported': reported, 'starts': pr.returncode == 0,
+                   'initReported': init_reported, 'attached': attached}
+            if 'att' in tag:
+                # the node as written, for the monitors of the attached-module clause
+                obs['mods'] = [{'name': n, 'cls': srvcls[c], 'cfg': [['description', {'bare': {'s': 'd'}}]] +
+                                ([['out', {'acc': [['value', {'s': o}]]}]] if o else [])}
+                               for n, c, o in re.findall(r"Mod\('(\w+)', 'frappy_verifc10srv\.(\w+)', '\w+'(?:, out='(\w*)')?", mods)]
             a = ctx.driver.batch([dict(obs, p='C10', k='judge_node')])[0]
             res.evaluations += 1
             res.traces += 1
